@@ -477,16 +477,29 @@ impl<V: VringT<GM> + Clone + Send + Sync + 'static> Rig<V> {
 
     fn quiesce_round(&self) -> bool {
         let bid = self.barrier_id as u16;
-        let mut ok = true;
         for t in 0..self.nthreads {
             let before = self.log.m.lock().unwrap().iter().filter(|e| e["ev"] == "dispatch" && e["event"] == bid && e["thread"] == t).count();
             let _ = self.barrier[t].write(1);
-            ok &= self.log.wait(
-                |ev| ev.iter().filter(|e| e["ev"] == "dispatch" && e["event"] == bid && e["thread"] == t).count() > before,
-                400,
-            );
+            // No verdict depends on a timeout: a worker counts as gone only when its thread has
+            // really exited (positive observation through /proc); slowness just means waiting longer.
+            let t0 = Instant::now();
+            loop {
+                if self.log.wait(
+                    |ev| ev.iter().filter(|e| e["ev"] == "dispatch" && e["event"] == bid && e["thread"] == t).count() > before,
+                    50,
+                ) {
+                    break;
+                }
+                if live_workers() < self.nthreads {
+                    return false;
+                }
+                if t0.elapsed() > Duration::from_secs(60) {
+                    eprintln!("TOOL-ERROR: worker alive but barrier not dispatched within 60 s");
+                    std::process::exit(3);
+                }
+            }
         }
-        ok
+        true
     }
 
     pub fn negotiate(&mut self, feats: u64, pf: u64) -> Value {
@@ -540,6 +553,21 @@ pub fn run(cases: &[Value], trace: &mut Trace, seed: u64) {
         }
         trace.emit(json!({"ev": "threads", "before": watch_threads, "after": after, "exit": case["exit"].as_bool().unwrap_or(true)}));
     }
+}
+
+/// number of live threads named "vring_worker" (the daemon's workers) in this process
+pub fn live_workers() -> usize {
+    let mut n = 0;
+    if let Ok(d) = std::fs::read_dir("/proc/self/task") {
+        for e in d.flatten() {
+            if let Ok(c) = std::fs::read_to_string(e.path().join("comm")) {
+                if c.trim() == "vring_worker" {
+                    n += 1;
+                }
+            }
+        }
+    }
+    n
 }
 
 pub fn thread_count() -> usize {
